@@ -154,17 +154,17 @@ theorem getRangesLoop_ok {A : AEAD} {m : Meta} {c : Nat} {P : Bytes} (hc : 1 ≤
     · simp only [hfetch, if_false] at h
       exact step cache fetched hcache (by omega) (by omega) h
 
-theorem getRanges_ok {A : AEAD} {H : List SealRec} {commits : List Commit}
+theorem getRangesWith_ok {A : AEAD} {H : List SealRec} {commits : List Commit}
     (hI : Ideal A H) (hN : NonceRespecting H) (hH : Honest H commits)
     (strict : Bool) (storeChunk : Nat) (B : Backend)
-    (hB : ∀ loc m, B.metaDoc loc = .ok m → m.fits loc = true)
-    (x : Bytes) (ranges : List (Nat × Nat))
-    (hmode : strict = true ∨ ∀ m, B.metaDoc x = .ok m → ¬ legacyShaped m)
+    (x : Bytes) (ranges : List (Nat × Nat)) (doc : Except RErr Meta)
+    (hfit : ∀ m, doc = .ok m → m.fits x = true)
+    (hmode : strict = true ∨ ∀ m, doc = .ok m → ¬ legacyShaped m)
     {outs : List Bytes} {f : List (Nat × Nat)}
-    (h : getRanges A strict storeChunk B x ranges = .ok (outs, f)) :
+    (h : getRangesWith A strict storeChunk B x ranges doc = .ok (outs, f)) :
     (ranges = [] ∧ outs = []) ∨
     ∃ k ∈ commits, k.loc = x ∧ outs = ranges.map (fun r => slice k.plain r.1 r.2) := by
-  unfold getRanges at h
+  unfold getRangesWith at h
   by_cases he : ranges.isEmpty = true
   · simp only [he, if_true] at h
     injection h with h
@@ -172,7 +172,7 @@ theorem getRanges_ok {A : AEAD} {H : List SealRec} {commits : List Commit}
     exact Or.inl ⟨List.isEmpty_iff.mp he, h.1.symm⟩
   · simp only [he, Bool.false_eq_true, if_false] at h
     right
-    cases hm : B.metaDoc x with
+    cases hm : doc with
     | error e => simp [hm] at h
     | ok m =>
       simp only [hm] at h
@@ -182,7 +182,7 @@ theorem getRanges_ok {A : AEAD} {H : List SealRec} {commits : List Commit}
         simp only [hv] at h
         have hmode' : strict = true ∨ ¬ legacyShaped m := hmode.imp id (fun h => h m hm)
         obtain ⟨_, n, t, p, _, _, hd⟩ := verify_authenticated hv hmode'
-        obtain ⟨k, hk, hloc, hun⟩ := authenticated_is_commit hI hH (hB x m hm) hd
+        obtain ⟨k, hk, hloc, hun⟩ := authenticated_is_commit hI hH (hfit m hm) hd
         obtain ⟨hrc, hcs⟩ := chunkSound_of_commit hI hN hH hk hun storeChunk
         have hsize : m.size = k.plain.length := by
           rw [(unsealed_fields hun).1, hH.size k hk]
@@ -203,5 +203,78 @@ theorem getRanges_ok {A : AEAD} {H : List SealRec} {commits : List Commit}
             simp only [Bool.not_eq_true, Bool.not_eq_false'] at hval
             exact ⟨k, hk, hloc, getRangesLoop_ok hc1 hcs hsize hsz payload ranges ⟨0, 0, []⟩ [] outs f
               (by simpa using hval) (by simp [CacheOk, slice_self]) h⟩
+
+theorem getRanges_ok {A : AEAD} {H : List SealRec} {commits : List Commit}
+    (hI : Ideal A H) (hN : NonceRespecting H) (hH : Honest H commits)
+    (strict : Bool) (storeChunk : Nat) (B : Backend)
+    (hB : ∀ loc m, B.metaDoc loc = .ok m → m.fits loc = true)
+    (x : Bytes) (ranges : List (Nat × Nat))
+    (hmode : strict = true ∨ ∀ m, B.metaDoc x = .ok m → ¬ legacyShaped m)
+    {outs : List Bytes} {f : List (Nat × Nat)}
+    (h : getRanges A strict storeChunk B x ranges = .ok (outs, f)) :
+    (ranges = [] ∧ outs = []) ∨
+    ∃ k ∈ commits, k.loc = x ∧ outs = ranges.map (fun r => slice k.plain r.1 r.2) :=
+  getRangesWith_ok hI hN hH strict storeChunk B x ranges (B.metaDoc x) (hB x) hmode h
+
+theorem getRangesWarm_ok {A : AEAD} {H : List SealRec} {commits : List Commit}
+    (hI : Ideal A H) (hN : NonceRespecting H) (hH : Honest H commits)
+    (strict : Bool) (storeChunk : Nat) (B : Backend)
+    (hB : ∀ loc m, B.metaDoc loc = .ok m → m.fits loc = true)
+    (x : Bytes) (ranges : List (Nat × Nat))
+    (cached : Option Meta) (hcfit : ∀ m, cached = some m → m.fits x = true)
+    (hmode : strict = true ∨
+      ((∀ m, B.metaDoc x = .ok m → ¬ legacyShaped m) ∧ ∀ m, cached = some m → ¬ legacyShaped m))
+    {outs : List Bytes} {f : List (Nat × Nat)}
+    (h : getRangesWarm A strict storeChunk B x ranges cached = .ok (outs, f)) :
+    (ranges = [] ∧ outs = []) ∨
+    ∃ k ∈ commits, k.loc = x ∧ outs = ranges.map (fun r => slice k.plain r.1 r.2) := by
+  have hcold := fun h => getRanges_ok hI hN hH strict storeChunk B hB x ranges (hmode.imp id (·.1))
+    (outs := outs) (f := f) h
+  unfold getRangesWarm at h
+  cases cached with
+  | none => exact hcold h
+  | some m0 =>
+    simp only at h
+    have hwith := fun h => getRangesWith_ok hI hN hH strict storeChunk B x ranges (.ok m0)
+      (fun m hm => by injection hm with hm; exact hcfit m (by rw [hm]))
+      (hmode.imp id (fun h' m hm => by injection hm with hm; exact h'.2 m (by rw [hm])))
+      (outs := outs) (f := f) h
+    split at h
+    · exact hcold h
+    · rename_i r hne
+      exact hwith h
+
+theorem headObjectWarm_ok {A : AEAD} {H : List SealRec} {commits : List Commit}
+    (hI : Ideal A H) (hH : Honest H commits) (strict : Bool) (B : Backend)
+    (hB : ∀ loc m, B.metaDoc loc = .ok m → m.fits loc = true) (x : Bytes)
+    (cached : Option Meta) (hcfit : ∀ m, cached = some m → m.fits x = true)
+    (hmode : strict = true ∨
+      ((∀ m, B.metaDoc x = .ok m → ¬ legacyShaped m) ∧ ∀ m, cached = some m → ¬ legacyShaped m))
+    {size : Nat} {etag : Option Bytes} {ts : Option Nat}
+    (h : headObjectWarm A strict B x cached = .ok (size, etag, ts)) :
+    ∃ k ∈ commits, k.loc = x ∧ size = k.plain.length ∧ etag = k.doc.eTag ∧ ts = k.doc.committedAtMs := by
+  have hcold := fun h => headObject_ok hI hH strict B hB x (hmode.imp id (·.1)) (size := size) (etag := etag) (ts := ts) h
+  unfold headObjectWarm at h
+  cases cached with
+  | none => exact hcold h
+  | some m0 =>
+    simp only at h
+    split at h
+    · exact hcold h
+    · -- the cached document answered: it is a backend whose document for `x` is `m0`
+      rename_i r hne
+      let B' : Backend := { metaDoc := fun l => if l = x then .ok m0 else B.metaDoc l, payload := B.payload }
+      have hB' : ∀ loc m, B'.metaDoc loc = .ok m → m.fits loc = true := by
+        intro loc m hm
+        simp only [B'] at hm
+        split at hm
+        · rename_i hl; injection hm with hm; rw [hl]; exact hcfit m (by rw [hm])
+        · exact hB loc m hm
+      have hm' : strict = true ∨ ∀ m, B'.metaDoc x = .ok m → ¬ legacyShaped m :=
+        hmode.imp id (fun h' m hm => by
+          simp only [B', if_true] at hm; injection hm with hm; exact h'.2 m (by rw [hm]))
+      have e : headObject A strict B' x = headWith A strict B x (.ok m0) := by
+        simp [headObject, headWith, B']
+      exact headObject_ok hI hH strict B' hB' x hm' (e ▸ h)
 
 end AndaVerif.Enc
